@@ -15,8 +15,9 @@ CONSTANTS TickWeight, DeliverWeight, StartWeight,   \* weights of a clock tick /
           Family   \* "fake": relay clients are in-process fakes registered in the client cache, the builder catalogue varies per
                    \* auction; "wired": real util.FetchBuilderClient + HTTP relay clients against relay servers, real execution
                    \* configuration (V2), the block relay service hands its own (one) builder catalogue to the strategy
-VARIABLES hist, servedKeys, mode, lastcfg, want, ftab   \* ftab: the catalogue of the first auction ("" before it)
-svars == <<vars, hist, servedKeys, mode, lastcfg, want, ftab>>
+VARIABLES hist, servedKeys, mode, lastcfg, want, ftab,  \* ftab: the catalogue of the first auction ("" before it)
+          cfgv   \* which implementation of the execution configuration produces the relay configurations (1 | 2)
+svars == <<vars, hist, servedKeys, mode, lastcfg, want, ftab, cfgv>>
 
 C(m, k, g, sp) == [min |-> m, key |-> k, grace |-> g, sp |-> sp]
 ScenCfgSet == [Relays -> {C(m, k, g, sp) : m \in {0, 2}, k \in {"none", "config"}, g \in {0, 1}, sp \in Spellings}]
@@ -35,6 +36,12 @@ NextCfgs(c) ==
                          sp |-> IF r = sr THEN ns ELSE c[r].sp]] :
         m \in [Relays -> {0, 2}], kr \in Relays \cup {0}, nk \in {"none", "config", "config2"}, gr \in Relays \cup {0},
         sr \in Relays \cup {0}, ns \in Spellings }
+
+\* The execution configuration has two implementations (services/blockrelay/v1, v2; the document's version decides).
+\* Version 1 can only say which relay addresses a proposer uses (and one grace period): no minimum value, no public
+\* key - the key known for a relay is the one spelled in its address.
+V1Able(c) == \A r \in Relays : c[r].min = 0 /\ c[r].key = "none" /\ c[r].grace = c[CHOOSE q \in Relays : TRUE].grace
+CfgsOf(v, S) == IF v = 1 THEN {c \in S : V1Able(c)} ELSE S
 
 \* bias: every clean bid; each single eligibility defect on a bid that would win if wrongly accepted
 TopVal == CHOOSE v \in Values : \A w \in Values : w <= v
@@ -60,10 +67,11 @@ SInit ==
     /\ Init
     /\ servedKeys = {}
     /\ mode \in {"seq", "ovl"}
-    /\ lastcfg \in ScenCfgSet
+    /\ cfgv \in IF Family = "wired" THEN {1, 2} ELSE {2}
+    /\ lastcfg \in CfgsOf(cfgv, ScenCfgSet)
     /\ want \in 2..MaxAuctions
     /\ ftab = ""
-    /\ hist = <<[ev |-> "Reset", variant |-> variant, family |-> Family, mode |-> mode]>>
+    /\ hist = <<[ev |-> "Reset", variant |-> variant, family |-> Family, mode |-> mode, cfgv |-> cfgv]>>
 
 H(e) == hist' = Append(hist, e)
 
@@ -83,24 +91,24 @@ SNext ==
     /\ \/ /\ Cardinality(Started) < want
           /\ mode = "seq" => Open = {}
           /\ FreeKeys # {}
-          /\ \E w \in 1..StartWeight, k \in {RandomElement(FreeKeys)}, c \in {RandomElement(NextCfgs(lastcfg))},
+          /\ \E w \in 1..StartWeight, k \in {RandomElement(FreeKeys)}, c \in {RandomElement(CfgsOf(cfgv, NextCfgs(lastcfg)))},
                 t \in {IF Family = "wired" /\ ftab # "" THEN ftab ELSE RandomElement(TableSet)} :
                LET i == NextIdle
                IN /\ Start(i, k, c, t)
                   /\ H([ev |-> "Auction", i |-> i, key |-> k, cfg |-> Seq3(c), tab |-> t, builders |-> BuilderTable(t), w |-> w])
                   /\ lastcfg' = c
                   /\ ftab' = IF ftab = "" THEN t ELSE ftab
-          /\ UNCHANGED <<servedKeys, mode, want>>
+          /\ UNCHANGED <<servedKeys, mode, want, cfgv>>
        \/ \E i \in Open, r \in Relays, w \in 1..DeliverWeight : \E a \in {RandomElement(AnswerSet)} :
             Deliver(i, r, a) /\ H([ev |-> "Deliver", i |-> i, r |-> r, n |-> rounds[i][r] + 1, a |-> a, ph |-> clock[i], w |-> w])
-                             /\ UNCHANGED <<servedKeys, mode, lastcfg, want, ftab>>
+                             /\ UNCHANGED <<servedKeys, mode, lastcfg, want, ftab, cfgv>>
        \/ \E a \in {RandomElement(FetchSet)} : \E via \in {RandomElement({"registrations", "other"})} :
-            Fetch(a[1], a[2]) /\ H([ev |-> "Fetch", r |-> a[1], sp |-> a[2], via |-> via]) /\ UNCHANGED <<servedKeys, mode, lastcfg, want, ftab>>
-       \/ \E i \in Open : \E e \in chan[i] : Consume(i, e) /\ UNCHANGED <<hist, servedKeys, mode, lastcfg, want, ftab>>
-       \/ \E i \in Open, w \in 1..TickWeight : Tick(i) /\ H([ev |-> "Tick", i |-> i, w |-> w]) /\ UNCHANGED <<servedKeys, mode, lastcfg, want, ftab>>
-       \/ \E i \in Open : Return(i) /\ H([ev |-> "Return", i |-> i]) /\ UNCHANGED <<servedKeys, mode, lastcfg, want, ftab>>
+            Fetch(a[1], a[2]) /\ H([ev |-> "Fetch", r |-> a[1], sp |-> a[2], via |-> via]) /\ UNCHANGED <<servedKeys, mode, lastcfg, want, ftab, cfgv>>
+       \/ \E i \in Open : \E e \in chan[i] : Consume(i, e) /\ UNCHANGED <<hist, servedKeys, mode, lastcfg, want, ftab, cfgv>>
+       \/ \E i \in Open, w \in 1..TickWeight : Tick(i) /\ H([ev |-> "Tick", i |-> i, w |-> w]) /\ UNCHANGED <<servedKeys, mode, lastcfg, want, ftab, cfgv>>
+       \/ \E i \in Open : Return(i) /\ H([ev |-> "Return", i |-> i]) /\ UNCHANGED <<servedKeys, mode, lastcfg, want, ftab, cfgv>>
        \/ \E k \in Keys \ servedKeys : Serve(k) /\ H([ev |-> "Serve", key |-> k]) /\ servedKeys' = servedKeys \cup {k}
-                                                /\ UNCHANGED <<mode, lastcfg, want, ftab>>
+                                                /\ UNCHANGED <<mode, lastcfg, want, ftab, cfgv>>
 
 SSpec == SInit /\ [][SNext]_svars
 
